@@ -83,8 +83,8 @@ func (m *Module) enableInlining() {
 	if m.anchors == nil {
 		m.anchors = map[*ssa.Function]bool{}
 	}
-	m.liftLocalCells()
 	m.findDeferClosures()
+	m.liftLocalCells()
 	inModule := map[*ssa.Function]bool{}
 	for _, fn := range m.Funcs {
 		inModule[fn] = true
